@@ -22,7 +22,7 @@ RULE = ("Grid, enumerated exhaustively on every run: command {put, list, restore
 ASSUMPTIONS = []
 
 CMDS = ["put", "list", "restore", "empty", "rm"]
-INSECURE = ("nonsticky", "link_sticky", "link_nonsticky")
+INSECURE = ("nonsticky", "link_sticky", "link_nonsticky", "setgid", "setuid")
 
 
 def examples(tier):
@@ -52,7 +52,7 @@ def strategy(tier):
 
 def uid_dir(vol, state, uid):
     """real directory that $vol/.Trash/$uid denotes (None if it cannot exist)"""
-    if state in ("sticky", "nonsticky"):
+    if state in ("sticky", "nonsticky", "setgid", "setuid"):
         return vol + "/.Trash/%d" % uid
     if state.startswith("link"):
         return vol + "/.real-trash/%d" % uid
